@@ -248,7 +248,7 @@ func emptyRoot() []byte { h := sha256.Sum256(nil); return h[:] }
 
 func splitPoint(n uint64) uint64 { // largest power of two < n, n >= 2
 	k := uint64(1)
-	for k<<1 < n {
+	for k < 1<<63 && k<<1 < n { // k<<1 would wrap to 0 for sizes above 2^63
 		k <<= 1
 	}
 	return k
@@ -544,6 +544,9 @@ func newSessionWith(t *traceWriter, storeKind string, logs []*logDef, wkeys []wi
 
 func (s *session) end() {
 	s.t.line("END %s", s.id)
+	if s.dead {
+		return // closing a wedged database would block too
+	}
 	s.store.close()
 }
 
@@ -551,10 +554,12 @@ func (s *session) readState(logID string) string {
 	if s.dead {
 		return "!"
 	}
-	if s.ctl != nil {
+	if s.ctl != nil || s.store.kind != "mem" {
+		// a read on a store whose only connection is pinned by a transaction left open never returns
 		var r string
 		if !withDeadline(3*time.Second, func() { r = s.readStateRaw(logID) }) {
 			s.dead = true
+			hangCount++
 			return "!"
 		}
 		return r
@@ -587,7 +592,7 @@ func (s *session) allState() string {
 	}
 	var ls []string
 	var err error
-	if s.ctl != nil {
+	if s.ctl != nil || s.store.kind != "mem" {
 		if !withDeadline(3*time.Second, func() { ls, err = s.w.GetLogs() }) {
 			s.dead = true
 			return "!"
